@@ -266,6 +266,12 @@ def check(model: Model, run: Run) -> None:
                        "keyword order each __str__ can emit is a path through the description pattern (inclusion of a generated skeleton language); (4) every dataclass "
                        "field is written by __str__ and assigned in from_string. Equality of the whole definition after the round trip (post-regex extraction) is NOT decided")
     folder = Folder(model)
+    from ..commonrules import no_memoised_views_of_fields, memoised_results_are_immutable
+    no_memoised_views_of_fields(model, run, "H19-text-is-computed-when-asked", [f"{SCHEMA}.{c}" for c in CLASSES],
+                                "str() keeps giving the first text after a list or the extensions of the definition were changed in place, and that text no longer parses back to the definition")
+    memoised_results_are_immutable(model, run, "H20-no-memoised-mutable-results", [SCHEMA], "a list or dict one parsed definition received is the one the next receives")
+    # the un-escaper's single pass is judged first: it does not depend on how the writer escapes
+    unescape_single_pass(model, run)
     # ---- (1) escape agreement -----------------------------------------------------------
     wsite, wclass, wcond = writer_escape(model)
     wfi = model.functions[wsite.func]
@@ -339,7 +345,6 @@ def check(model: Model, run: Run) -> None:
             run.fail(Finding("H10-writer-output-is-a-qdstring", f"{SCHEMA}.QDSTRING", f"witness:{shown}",
                              f"the serialiser can emit {shown!r} for a description/extension text, which the library's own QDSTRING fragment does not match: from_string rejects str()'s output",
                              model.loc(SCHEMA, wsite.node)))
-    unescape_single_pass(model, run)
     int_presence_tests(model, run)
     parsed_numbers_kept(model, run)
     decoder_strips_only_the_quotes(model, run)
